@@ -75,6 +75,7 @@ func (fv *FuncVerifier) execStmt(st *State, s ast.Stmt) {
 	defer func() {
 		switch s.(type) {
 		case *ast.ExprStmt, *ast.AssignStmt, *ast.DeclStmt, *ast.IncDecStmt:
+			fv.flushWriteBacks(st)
 			fv.flushAsserts(st)
 		}
 	}()
